@@ -70,6 +70,24 @@ def cases(rng, tier):
             d = VL.vdict([(da, I(5)), (db, I(6))])
             yield Case(program=render(call(d.expr, da.expr)), tag='dict-pairing-key', monitor='c06_expect', data='5')
             yield Case(program=render(call(d.expr, db.expr)), tag='dict-pairing-key', monitor='c06_expect', data='6')
+    # (1d) the same entries written in a different order are the same dictionary — also when the keys' *host hashes* collide
+    # (−1 / −2, n / n ± k(2^61−1), 0.5 / 2^60, [−1] / [−2]) and the values are equal (seeded change S06j ordered a
+    # dictionary's key by hash: ties kept insertion order)
+    M61 = 2 ** 61 - 1
+    coll = [[I(-1), I(-2)], [I(5), I(5 + M61), I(5 - M61)], [VL.vfloat(0.5), I(2 ** 60)], [VL.vlist([I(-1)]), VL.vlist([I(-2)])],
+            [I(0), I(M61), I(2 * M61)], [I(-1), I(-2), I(M61 - 1)]]
+    for ks in coll:
+        for vals in ([I(0)] * len(ks), [I(i) for i in range(len(ks))]):
+            fwd = VL.vdict(list(zip(ks, vals)))
+            rev = VL.vdict(list(reversed(list(zip(ks, vals)))))
+            yield Case(program=render(bi('ㄴ', fwd.expr, rev.expr)), tag='dict-collide-order', monitor='c06_expect', data='True')
+            yield Case(program=render(bi('ㄴ', rev.expr, fwd.expr)), tag='dict-collide-order', monitor='c06_expect', data='True')
+            yield Case(program=render(bi('ㄴ', VL.vlist([fwd]).expr, VL.vlist([rev]).expr)), tag='dict-collide-order', monitor='c06_expect', data='True')
+            yield Case(program=render(call(VL.vdict([(fwd, I(7))]).expr, rev.expr)), tag='dict-collide-key', monitor='c06_expect', data='7')
+            yield Case(program=render(call(VL.vdict([(fwd, I(1)), (rev, I(2))]).expr, fwd.expr)), tag='dict-collide-key', monitor='c06_expect', data='2')
+            half = len(ks) // 2 or 1
+            merged = bi('ㄷ', VL.vdict(list(zip(ks, vals))[half:]).expr, VL.vdict(list(zip(ks, vals))[:half]).expr)
+            yield Case(program=render(bi('ㄴ', merged, fwd.expr)), tag='dict-collide-merge', monitor='c06_expect', data='True')
     # (1a) strings: equal iff the same code points — no normalisation, no case / width folding
     strs = [VL.vstr(x) for x in ["가", "\u1100\u1161", "\u00e9", "e\u0301", "\u212b", "\u00c5", "A\u030a", "\uf900", "\u8c48", "a", "A", "ａ", "", " "]]
     for x in strs:
